@@ -27,11 +27,17 @@ META = {
             'paging, custom payload from statement and execute(), tracing, compression, beta flag, stream id) is built through '
             'the real session-layer code, encoded as Connection.send_msg does and parsed by vt.spec.frames.parse_request '
             '(header length = body length, no trailing bytes, flag widths and fields per version); parsed fields must equal the '
-            'request, and combinations a version cannot carry must raise. thorough: full product of body options x full product of '
-            'frame options; quick: options without six interior symbols (timestamp 0, fetch size 1, empty query, 16-byte id, stream '
-            'ids 1 and 128, two-entry payload), '
-            'full product of them x a star of frame options (default, each value alone, all together), and must-reject cases '
-            'only where the remaining body options form a star.',
+            'request, and combinations a version cannot carry must raise. The alphabets contain the present-but-falsy value of every '
+            'option (client timestamp 0, fetch size 0, paging state b"", keyspace "", consistency ANY (0), serial consistency ANY '
+            '(0) on the statement, empty bound-values list, empty payload from execute() and from the statement, stream id 0, empty '
+            'batch, empty token / credentials / query text). Two layers per tier. quick: main = full product of the body options '
+            'without the interior symbols (timestamp 0, fetch sizes 0 and 1, paging state b"", consistency / serial ANY, empty query, '
+            '16-byte id) x a star of frame options (default, each value alone incl. the empty statement payload, all together; '
+            'without stream ids 1 and 128 and the two-entry payload); edge = full product of the complete body alphabets x default '
+            'frame options (cases of the main layer not repeated); must-reject cases only where the remaining body options form a '
+            'star. thorough: main = full product of the body options without fetch size 0, paging state b"", consistency / serial '
+            'ANY x full product of the frame options without the empty statement payload; edge = full product of the complete '
+            'body alphabets x a star of the complete frame options.',
     'note': 'Trusted base: vt/spec/frames.py (written from the protocol specifications; DSE_V1/V2 layouts from DataStax\'s public '
             'notes). The session object handed to Session._create_response_future is a stub carrying only the attributes that '
             'method reads. Compression uses a stand-in codec (the compressor is a parameter of encode_message).',
@@ -46,13 +52,13 @@ MAXLONG = 2 ** 63 - 1
 # symbolic option values (a case is a dict of axis -> symbol, JSON-native so it can be replayed)
 QUERIES = {'plain': 'SELECT 1', 'utf8': 'SELECT "é€\U0001F600" FROM t', 'empty': ''}
 PAYLOAD_EXEC = {'none': None, 'empty': {}, 'one': {'k': b'v'}, 'two': {'a': b'', 'b': b'\x00\xff'}}
-PAYLOAD_STMT = {'none': None, 'one': {'s': b'1', 'k': b'stmt'}}
-FETCH = {'default': 5000, 'none': None, 'one': 1, 'max': MAXINT}
+PAYLOAD_STMT = {'none': None, 'empty': {}, 'one': {'s': b'1', 'k': b'stmt'}}
+FETCH = {'default': 5000, 'none': None, 'one': 1, 'zero': 0, 'max': MAXINT}
 TS = {'off': None, 'one': 1, 'zero': 0, 'max': MAXLONG, 'neg': -1}
 KS = {'none': None, 'ks': 'ks', 'empty': ''}
-PAGING_STATE = {'none': None, 'some': b'\x00\xffstate'}
-SERIAL = {'none': None, 'stmt': 8, 'profile': 9}
-CL = {'default': 10, 'quorum': 4}
+PAGING_STATE = {'none': None, 'empty': b'', 'some': b'\x00\xffstate'}
+SERIAL = {'none': None, 'stmt': 8, 'any': 0, 'profile': 9}     # 'any': ConsistencyLevel.ANY (0) given to the statement
+CL = {'default': 10, 'any': 0, 'quorum': 4}
 CONT = {'none': None, 'rows': ('rows', 2, 3, 4), 'bytes': ('bytes', 0, 0, 2)}
 QID = {'short': b'\x01', 'md5': bytes(range(16))}
 VALUES = {                      # bound python values -> expected wire values
@@ -94,18 +100,56 @@ def streams(v):
 
 QUICK_DROPPED = {'ts': ('zero',), 'fetch': ('one',), 'query': ('empty',), 'qid': ('md5',),
                  'stream': (1, 128), 'payload_exec': ('two',)}
+# "present but falsy" option values (0, b'', {}, ConsistencyLevel.ANY == 0): the values a truthiness test
+# in the encoder confuses with "not given".  Together with the ones that were always in the alphabets
+# (timestamp 0, keyspace "", empty bound-values list, empty payload via execute(), stream id 0, empty token,
+# batch type LOGGED == 0, operation id 0) they are enumerated by the *edge layer* of both tiers.
+FALSY = {'cl': ('any',), 'serial': ('any',), 'fetch': ('zero',), 'paging_state': ('empty',), 'payload_stmt': ('empty',),
+         'payload_exec': ('empty',), 'ts': ('zero',), 'keyspace': ('empty',), 'values': ('zero',), 'query': ('empty',),
+         'batch': ('none', 'prepzero+str'), 'token': ('emptystr', 'emptybytes'), 'creds': ('empty',)}
+EDGE = {'cl': ('any',), 'serial': ('any',), 'fetch': ('zero',), 'paging_state': ('empty',), 'payload_stmt': ('empty',)}
+
+# alphabets: 'full' = every symbol; 'wide' = full without EDGE; 'lean' = full without QUICK_DROPPED;
+# 'core' = full without both.  Interior symbols only are ever removed, so the first (default) and last symbol
+# of an axis are the same in all of them.
+LEVELS = ('core', 'lean', 'wide', 'full')
+# tier -> (main layer: body alphabet, frame alphabet, frame combiner; edge layer: frame combiner).  The edge layer
+# always runs the full product of the 'full' body alphabets x its combiner over the 'full' frame alphabets and
+# skips the cases the main layer already ran.
+TIERS = {'quick': ('core', 'lean', 'star', 'default'), 'thorough': ('wide', 'wide', 'full', 'star')}
 
 
-def axes(kind, v, tier='thorough'):
-    """Ordered axis -> list of symbols; the first symbol of each axis is its default.
-    The quick tier leaves out the interior symbols listed in QUICK_DROPPED."""
+def axes(kind, v, level='full'):
+    """Ordered axis -> list of symbols; the first symbol of each axis is its default."""
+    if level not in LEVELS:
+        raise HarnessError('alphabet level %r' % (level,))
     fr, body = _axes(kind, v)
-    if tier == 'quick':
-        for k, drop in QUICK_DROPPED.items():
+    drops = []
+    if level in ('core', 'wide'):
+        drops.append(EDGE)
+    if level in ('core', 'lean'):
+        drops.append(QUICK_DROPPED)
+    for d in drops:
+        for k, drop in d.items():
             for ax in (fr, body):
                 if k in ax:
                     ax[k] = [x for x in ax[k] if x not in drop]
     return fr, body
+
+
+def main_axes(kind, v, tier):
+    blevel, flevel, _, _ = TIERS[tier]
+    return axes(kind, v, flevel)[0], axes(kind, v, blevel)[1]
+
+
+def frame_combos(fr, how):
+    if how == 'star':
+        return frame_star(fr)
+    if how == 'full':
+        return frame_full(fr)
+    if how == 'default':
+        return [{k: vals[0] for k, vals in fr.items()}]
+    raise HarnessError(how)
 
 
 def _axes(kind, v):
@@ -252,6 +296,9 @@ def expect(kind, v, case):
         return ts
 
     def serial(sym):
+        if sym == 'any':                    # not a serial level: no well-formed frame can carry it, so it is refused
+            may()                           # (today: ValueError from the statement) or left out; the parser rejects
+            return None                     # a serial-consistency field that is not SERIAL / LOCAL_SERIAL
         return SERIAL[sym]
 
     if kind in ('QUERY', 'EXECUTE'):
@@ -270,15 +317,19 @@ def expect(kind, v, case):
                 must()
         s = serial(case['serial'])
         ps = PAGING_STATE[case['paging_state']]
+        if not ps:                          # b'' is "no paging state": absent or an empty [bytes], never a must-reject
+            ps = OneOf(None, b'') if ps is not None else None
         if v == 1:
-            if s is not None or ps is not None:
+            if s is not None or isinstance(ps, bytes):
                 must()
             exp.update(page_size=None, paging_state=None, serial_consistency=None, timestamp=None,
                        page_size_in_bytes=False, continuous=None)
             fetch = None                    # Statement.fetch_size is documented to take effect from v2
         else:
             fetch = FETCH[case['fetch']]
-            exp.update(page_size=fetch, paging_state=ps, serial_consistency=s, timestamp=timestamp(case['ts']))
+            # fetch size 0 is "no paging": no page size or a page size of 0, the frame must be well formed either way
+            exp.update(page_size=OneOf(None, 0) if fetch == 0 else fetch, paging_state=ps, serial_consistency=s,
+                       timestamp=timestamp(case['ts']))
         cont = CONT[case['cont']]
         if cont is None:
             exp.update(continuous=None, page_size_in_bytes=False)
@@ -290,6 +341,8 @@ def expect(kind, v, case):
                 c['next_pages'] = cont[3]
             exp['continuous'] = c
             exp['page_size_in_bytes'] = bool(cont[0] == 'bytes' and fetch is not None)
+            if cont[0] == 'bytes' and fetch == 0:
+                exp['page_size_in_bytes'] = OneOf(False, True)      # the parser ties the flag to a page size being there
     elif kind == 'BATCH':
         if v == 1:
             must()
@@ -419,7 +472,7 @@ class Env(object):
             s.use_client_timestamp = ts is not None
             cl.timestamp_generator = lambda: ts
             cl.allow_beta_protocol_version = case['beta']
-            stmt_serial = SERIAL[case['serial']] if case['serial'] == 'stmt' else None
+            stmt_serial = SERIAL[case['serial']] if case['serial'] in ('stmt', 'any') else None
             stmt_cl = CL[case['cl']] if case['cl'] != 'default' else None
             pstmt = PAYLOAD_STMT[case['payload_stmt']]
             pstmt = dict(pstmt) if pstmt is not None else None
@@ -535,9 +588,9 @@ def uncarriable_axes(kind, v, case):
     if _merged_payload(case) and not F.carries_payload(v):
         out += ['payload_exec', 'payload_stmt']
     if kind in ('QUERY', 'EXECUTE'):
-        if v == 1 and case['serial'] != 'none':
+        if v == 1 and case['serial'] not in ('none', 'any'):
             out.append('serial')
-        if v == 1 and case['paging_state'] != 'none':
+        if v == 1 and case['paging_state'] not in ('none', 'empty'):
             out.append('paging_state')
         if case['cont'] != 'none' and not F.carries_continuous_paging(v):
             out.append('cont')
@@ -573,9 +626,9 @@ def _which_uncarriable(kind, v, case):
     if _merged_payload(case) and not F.carries_payload(v):
         return 'custom_payload'
     if kind in ('QUERY', 'EXECUTE'):
-        if v == 1 and case['serial'] != 'none':
+        if v == 1 and case['serial'] not in ('none', 'any'):
             return 'serial_consistency'
-        if v == 1 and case['paging_state'] != 'none':
+        if v == 1 and case['paging_state'] not in ('none', 'empty'):
             return 'paging_state'
         if case['cont'] != 'none' and not F.carries_continuous_paging(v):
             return 'continuous_paging'
@@ -628,25 +681,34 @@ def present_fields(kind, case):
         if k in ('stream', 'query', 'qid', 'cl', 'batch_type', 'cqlv', 'opid'):
             continue
         if val in (False, 'none', 'default', 'off', 'zero', 'plain', 'cancel'):
-            if not (k == 'values' and val == 'zero'):
+            if not (k in ('values', 'ts', 'fetch') and val == 'zero'):
                 continue
         out.append(k)
     return out
 
 
 def run_chunk(args):
-    kind, v, tier, idx, nslices = args
+    kind, v, tier, layer, idx, nslices = args
     env = Env.get()
     part = Part()
     seen_fp = set()
-    fr, body = axes(kind, v, tier)
-    frames_ = frame_star(fr) if tier == 'quick' else frame_full(fr)
+    mfr, mbody = main_axes(kind, v, tier)
+    if layer == 'main':
+        fr, body = mfr, mbody
+        frames_ = frame_combos(fr, TIERS[tier][2])
+    else:
+        fr, body = axes(kind, v, 'full')
+        frames_ = frame_combos(fr, TIERS[tier][3])
+        main_frames = frame_combos(mfr, TIERS[tier][2])
     i = -1
     for b in body_cases(body):
         i += 1
         if i % nslices != idx:
             continue
+        in_main_body = layer == 'edge' and all(b[k] in mbody[k] for k in b)
         for f in frames_:
+            if in_main_body and f in main_frames:
+                continue                    # the main layer runs this very case
             case = dict(f)
             case.update(b)
             if not requestable(kind, v, case):
@@ -659,6 +721,9 @@ def run_chunk(args):
                     continue
             outcome, problems, frame = evaluate(env, kind, v, case)
             part.count('evaluations')
+            part.count('evaluations_%s_layer' % layer)
+            if any(case[k] in syms for k, syms in FALSY.items() if k in case):
+                part.count('cases_with_a_falsy_but_present_option')
             pf = present_fields(kind, case)
             if pf or outcome != 'encoded':
                 part.count('distinct_nontrivial')
@@ -689,24 +754,33 @@ def run(ctx):
     items = []
     for kind in KINDS:
         for v in F.VERSIONS:
-            _, body = axes(kind, v, ctx.tier)
-            n = 1
-            for vals in body.values():
-                n *= len(vals)
-            nslices = max(1, min(64, n // (400 if ctx.quick else 60)))
-            for idx in range(nslices):
-                items.append((kind, v, ctx.tier, idx, nslices))
+            for layer in ('main', 'edge'):
+                body = main_axes(kind, v, ctx.tier)[1] if layer == 'main' else axes(kind, v, 'full')[1]
+                n = 1
+                for vals in body.values():
+                    n *= len(vals)
+                per = (400 if ctx.quick else 60) if layer == 'main' else (4000 if ctx.quick else 400)
+                nslices = max(1, min(64, n // per))
+                for idx in range(nslices):
+                    items.append((kind, v, ctx.tier, layer, idx, nslices))
     items = ctx.rotate(items)
     # interleave heavy and light items so that the pool stays busy
     for part in ctx.pmap(run_chunk, items, chunksize=1):
         ctx.merge(part)
     ctx.cov['rule'] = ('cases = request kind x version {1,2,3,4,5,6,0x41,0x42} x full product of the body options '
-                       '(query text, consistency, serial CL from statement/profile, fetch size, paging state, client timestamp '
-                       '{off,0,1,2^63-1,-1}, keyspace {None,"ks",""}, continuous paging {None,rows,bytes}, bound values {[],bytes,'
-                       'empty,null,unset,mixed}, batch shapes 0-2 statements) x %s of the frame options (stream ids, tracing, '
-                       'payload via execute() x payload on the statement, compressor, beta flag); non-trivial = a case that asks '
-                       'for at least one optional field or that was rejected' % (
-                           'a star (default, each value alone, all together)' if ctx.quick else 'the full product'))
+                       '(query text {plain,utf8,""}, consistency {LOCAL_ONE,ANY=0,QUORUM}, serial CL {none, SERIAL on the statement, '
+                       'ANY=0 on the statement, LOCAL_SERIAL from the profile}, fetch size {5000,None,1,0,2^31-1}, paging state '
+                       '{None,b"",bytes}, client timestamp {off,1,0,2^63-1,-1}, keyspace {None,"ks",""}, continuous paging '
+                       '{None,rows,bytes}, bound values {[],bytes,empty,null,unset,mixed}, batch shapes 0-2 statements) x frame '
+                       'options (stream ids, tracing, payload via execute() {None,{},1,2 entries} x payload on the statement '
+                       '{None,{},2 entries}, compressor, beta flag), in two layers: main = body alphabets "%s" x %s of the frame '
+                       'alphabets "%s"; edge = complete body alphabets x %s of the complete frame alphabets, minus the cases of '
+                       'the main layer (alphabet names as in checks/c03.py: core/lean/wide/full); counters evaluations_main_layer '
+                       '/ evaluations_edge_layer / cases_with_a_falsy_but_present_option are measured; non-trivial = a case that '
+                       'asks for at least one optional field or that was rejected' % (
+                           TIERS[ctx.tier][0], {'star': 'a star (default, each value alone, all together)',
+                                                'full': 'the full product'}[TIERS[ctx.tier][2]], TIERS[ctx.tier][1],
+                           {'default': 'the default combination', 'star': 'a star'}[TIERS[ctx.tier][3]]))
     ctx.cov['exhaustive'] = True
     ctx.assume('QUERY/EXECUTE/BATCH messages are exactly those Session._create_response_future builds for a stub session '
                '(profiles mode); PREPARE as Session.prepare builds it (no tracing / payload); STARTUP, OPTIONS, AUTH_RESPONSE, '
@@ -716,7 +790,12 @@ def run(ctx):
                'must be rejected on such versions')
     ctx.assume('keyspace "" may be sent as "" or treated as no keyspace, but the frame must be well formed either way')
     ctx.assume('fetch_size on v1 and client timestamps below v3 are documented as "no effect" and expected absent; '
-               'fetch_size 0 / empty paging state / empty custom payload are "nothing requested"')
+               'fetch_size 0 / empty paging state / empty custom payload are "nothing requested": the field may be absent or '
+               'carried as 0 / empty [bytes] / empty map (with continuous paging in bytes and fetch_size 0 the bytes flag follows '
+               'the page size), never a flag without its field, and never a must-reject')
+    ctx.assume('consistency ANY (0) is a level like any other and must be on the wire; serial consistency ANY (0) is not a '
+               'serial level and no well-formed frame can carry it: the request may be refused (the statement constructor does) '
+               'or sent without a serial consistency; a client timestamp of 0 is a timestamp and must be on the wire from v3 on')
     ctx.assume('a negative client timestamp may be refused (v3/v4 specs forbid it) or sent unchanged')
     ctx.assume('left out: serial consistency on a v2 BATCH (documented as v3+, v2 has no field for it; the driver drops it '
                'silently), BATCH with paging state / continuous paging options (not applicable), AUTH_RESPONSE on v1, '
